@@ -62,6 +62,14 @@ let line_of (l : string) : string =
        | M.Err (M.EUnknownLicense (w, o)) -> Printf.sprintf "R unk %d %s" (int_of_nat o) (hex (string_of_str w))
        | M.Err (M.EExpectedId o) -> Printf.sprintf "R eid %d" (int_of_nat o)
        | M.Err _ -> "R other" | M.Panic -> "R PANIC" | M.Fuel -> "R FUEL")
+  | ["E"; e] ->
+      (match M.parse t0 (str_of_string (unhex e)) with
+       | M.Ok t ->
+           let alts = M.expand t in
+           let term n = match M.canon n with Some s -> string_of_str s | None -> "?" in
+           let one a = String.concat "," (List.map hex (List.sort compare (List.map term a))) in
+           "E " ^ String.concat "|" (List.sort compare (List.map one alts))
+       | _ -> "E E")
   | ["Q"; e; a] ->
       (match M.satisfies t0 (str_of_string (unhex e)) (List.map str_of_string (unlist a)) with
        | M.Ok _ -> "Q ok"
